@@ -241,8 +241,13 @@ def _hist_terms(case):
                 ghs = [_side_graphs(r) for r in rs]
                 if any(x is None for x in ghs) or not rs:
                     continue
-                out.append((i, "L [%s]" % "; ".join("tbool (balancedb %s %s)" % (E.coq_mgraph(E.from_nx(a)), E.coq_mgraph(E.from_nx(b)))
-                                                     for a, b in ghs)))
+                lits = [(E.coq_mgraph(E.from_nx(a)), E.coq_mgraph(E.from_nx(b))) for a, b in ghs]
+                if st["api"].startswith("dicts"):
+                    if len(set(rs)) != len(rs):
+                        continue
+                    out.append((i, "run_bal_part [%s]" % "; ".join("(%d%%nat, (%s, %s))" % (k, a, b) for k, (a, b) in enumerate(lits))))
+                else:
+                    out.append((i, "L [%s]" % "; ".join("tbool (balancedb %s %s)" % ab for ab in lits)))
         except (KeyError, TypeError, ValueError):
             continue
     return out
